@@ -169,8 +169,13 @@ func newRef(sp *spec, srvState *tls.ConnectionState) *ref {
 	if isScram(sp.mech) {
 		np, _ := saslx.Opaque(s.secret)
 		st := saslx.Store(hashOf(sp.mech), string(np), sp.salt, sp.iter)
+		// the account name at the server is the prepared (PRECIS OpaqueString) form of the user name
+		acct := sp.user
+		if nu, ok := saslx.Opaque(sp.user); ok {
+			acct = string(nu)
+		}
 		s.scram = &saslx.ScramServer{Hash: hashOf(sp.mech), Plus: isPlus(sp.mech), NonceSuffix: "c14srv",
-			Lookup: func(u string) (saslx.Stored, bool) { return st, u == sp.user }}
+			Lookup: func(u string) (saslx.Stored, bool) { return st, u == acct }}
 		if srvState != nil {
 			s.scram.CBType, s.scram.CBData, _ = saslx.ChannelBinding(*srvState)
 		}
